@@ -18,7 +18,7 @@ EXPLAIN = "c19_explain"
 CASES_PER_FILE = 120
 CASE_FILE_BYTES = 120000
 CASE_TIMEOUT = 20
-TIERS = {"quick": {"n": 1500}, "thorough": {"n": 30000}}
+TIERS = {"quick": {"n": 1500}, "thorough": {"n": 20000, "exhaustive": True}}
 RULE = ("three case kinds in rotation 4:4:2 - split: texts of 0-40 (some 200) code points over letters, digits, "
         "spaces, the 8 line-break forms, their near misses (\\t \\x1c-\\x1e \\x84 \\x86 U+2027 U+202A) and the "
         "substrings ' 28'/' 29', observed through list(iter_splitlines(t)) (and t.splitlines() to validate the "
@@ -105,22 +105,26 @@ TYPO = [[32, 50, 56], [32, 50, 57], [0x20, 0x32], [50, 56], [0x202, 56]]
 ORD = [[97], [98], [99], [32], [48], [50], [56], [57], [233], [0x20ac], [0x1d11e], [122]]
 
 
-def gen_split(rng, tier):
+def gen_text(rng):
     r = rng.random()
     n = rng.randint(0, 6) if r < 0.25 else rng.randint(0, 40) if r < 0.93 else rng.randint(100, 220)
     pb = rng.choice([0.1, 0.25, 0.5, 0.8])
-    with_ctl = rng.random() < 0.12
+    style = rng.choice(["plain", "plain", "plain", "ctl", "near", "typo"])
+    p_near = {"plain": 0.06, "ctl": 0.3, "near": 0.3, "typo": 0.05}[style]
+    p_typo = {"plain": 0.06, "ctl": 0.03, "near": 0.03, "typo": 0.35}[style]
     out = []
     while len(out) < n:
         x = rng.random()
         if x < pb:
             out += rng.choice(BREAKS)
-        elif x < pb + 0.1:
+        elif x < pb + p_near:
             c = rng.choice(NEAR)
-            if not with_ctl and c[0] in (0x1c, 0x1d, 0x1e):
+            if style == "ctl" and rng.random() < 0.7:
+                c = rng.choice([[0x1c], [0x1d], [0x1e]])
+            elif style != "ctl" and c[0] in (0x1c, 0x1d, 0x1e):
                 c = [9]
             out += c
-        elif x < pb + 0.2:
+        elif x < pb + p_near + p_typo:
             out += rng.choice(TYPO)
         else:
             out += rng.choice(ORD)
@@ -128,13 +132,45 @@ def gen_split(rng, tier):
         out += rng.choice(BREAKS)
     if rng.random() < 0.2:
         out = rng.choice(BREAKS) + out
-    return {"k": "split", "runs": [[out, 1]]}
+    return out
+
+
+def gen_split(rng, tier):
+    return {"k": "split", "runs": [[gen_text(rng), 1]]}
+
+
+MARGINS = [[32, 32], [9], [62, 32], [], [0x2028], [10]]
+NEWLINES = [[10], [10], [13, 10], [], [124], [0x2028]]
+
+
+def gen_indent(rng, tier):
+    return {"k": "indent", "runs": [[gen_text(rng), 1]], "margin": rng.choice(MARGINS), "newline": rng.choice(NEWLINES)}
+
+
+def sweep(tier):
+    """thorough tier: complete small scopes.  split: every text over {a, \\n, \\r, \\x85, U+2028} up to length 5;
+    rev: every content over {a, \\n, \\r} up to length 7, block sizes 1, 2, 3, 5 and the default."""
+    import itertools
+    for n in range(0, 6):
+        for t in itertools.product([97, 10, 13, 0x85, 0x2028], repeat=n):
+            yield {"k": "split", "runs": [[list(t), 1]]}
+    k = 0
+    for n in range(0, 8):
+        for t in itertools.product([97, 10, 13], repeat=n):
+            k += 1
+            yield {"k": "rev", "runs": [[list(t), 1]], "mode": REV_MODES[k % len(REV_MODES)], "pos": None,
+                   "bs": [[1, "pos"], [2, "kw"], [3, "kw"], [5, "pos"], [4096, "default"]]}
 
 
 CH_ASCII = [[97], [98], [120], [32], [49]]
 CH_MULTI = [[0xc3, 0xa9], [0xe2, 0x82, 0xac], [0xf0, 0x9d, 0x84, 0x9e], [0xe2, 0x80, 0xa8], [0xc2, 0x85], [0xc2, 0xa0]]
 CH_BIN_ODD = [[11], [12], [0x85], [0x80], [0xff], [0], [0x1c]]
 MODES = ["bytesio", "binfile", "textfile"]
+# after /repo 3e62fa7 the file's own / the given encoding is honoured
+REV_MODES = ["bytesio", "binfile", "textfile", "bytesio", "binfile", "textfile", "latin1file", "enc_utf8", "enc_latin1"]
+JSONL_MODES = ["bytesio", "binfile", "textfile", "bytesio", "binfile", "textfile", "latin1file"]
+UTF8_MODES = ("textfile", "enc_utf8")
+TEXT_MODES = ("textfile", "enc_utf8", "latin1file", "enc_latin1")
 
 
 def gen_content(rng, n, mode, lone_cr, invalid):
@@ -153,7 +189,7 @@ def gen_content(rng, n, mode, lone_cr, invalid):
         elif x < pb + 0.25:
             out += rng.choice(CH_MULTI)
         elif x < pb + 0.33:
-            if mode == "textfile" and not invalid:
+            if mode in UTF8_MODES and not invalid:
                 out += rng.choice([[11], [12], [0x1c]])
             else:
                 out += rng.choice(CH_BIN_ODD)
@@ -177,10 +213,10 @@ def pick_blocksizes(rng, n):
 
 
 def gen_rev(rng, tier):
-    mode = rng.choice(MODES)
+    mode = rng.choice(REV_MODES)
     r = rng.random()
     lone_cr = rng.random() < 0.10
-    invalid = mode == "textfile" and rng.random() < 0.04
+    invalid = mode in UTF8_MODES and rng.random() < 0.04
     if r < 0.95:
         n = rng.randint(0, 5) if r < 0.2 else rng.randint(0, 40)
         content = gen_content(rng, n, mode, lone_cr, invalid)
@@ -194,8 +230,12 @@ def gen_rev(rng, tier):
             runs.append([gen_content(rng, rng.randint(0, 8), mode, lone_cr, False), 1])
         bs = [[4096, rng.choice(["pos", "kw", "default"])], [rng.choice([1000, 4095, 4097, 5000, 8192, 100000]), "kw"]]
     pos = None
-    if mode != "textfile" and rng.random() < 0.15:
+    if mode in ("bytesio", "binfile", "enc_utf8", "enc_latin1") and rng.random() < 0.15:
         pos = rng.randint(0, len(expand(runs)))
+        if mode == "enc_utf8":
+            c = expand(runs)
+            while 0 < pos < len(c) and 0x80 <= c[pos] < 0xc0:     # keep the cursor on a character boundary
+                pos -= 1
     return {"k": "rev", "runs": runs, "mode": mode, "pos": pos, "bs": bs}
 
 
@@ -211,7 +251,7 @@ WS_TRAIL = [[], [], [], [32], [9], [32, 32]]
 
 
 def gen_jsonl(rng, tier):
-    mode = rng.choice(MODES)
+    mode = rng.choice(JSONL_MODES)
     ie = rng.random() < 0.6
     lone_cr = rng.random() < 0.05
     nlines = rng.choice([0, 1, 1, 2, 3, 4, 5, 6, 8])
@@ -230,10 +270,14 @@ def gen_jsonl(rng, tier):
             lead = list(rng.choice(WS_LEAD))
             if mode == "textfile" and rng.random() < 0.1:
                 lead += rng.choice(WS_LEAD_TEXT)
+            if mode == "latin1file" and rng.random() < 0.1:
+                lead += rng.choice([[0xa0], [0x85], [0x1c]])
             if big and rng.random() < 0.5:
                 runs.append([[32], rng.randint(500, 3000)])
             if rng.random() < p_bad:
                 tok = rng.choice(J_BAD + (J_BAD_BIN if mode != "textfile" else []))
+                if mode == "latin1file" and tok in J_BAD_BIN:
+                    tok = [0x80]                      # a C1 control character: "Expecting value"
             else:
                 tok = rng.choice(J_OK)
             body = lead + tok + rng.choice(WS_TRAIL)
@@ -273,10 +317,15 @@ def gen_jsonl(rng, tier):
 
 
 def generate(rng, tier, n):
+    if TIERS.get(tier, {}).get("exhaustive") and n >= TIERS[tier]["n"]:
+        for c in sweep(tier):
+            yield c
     for i in range(n):
         x = i % 10
-        if x < 4:
+        if x < 3:
             yield gen_split(rng, tier)
+        elif x < 4:
+            yield gen_indent(rng, tier)
         elif x < 8:
             yield gen_rev(rng, tier)
         else:
@@ -295,7 +344,7 @@ class _Files:
     def open(self):
         import io
         import tempfile
-        if self.mode == "bytesio":
+        if self.mode in ("bytesio", "enc_utf8", "enc_latin1"):
             return io.BytesIO(self.content)
         if self.tmp is None:
             self.tmp = tempfile.TemporaryDirectory(prefix="c19_")
@@ -304,6 +353,8 @@ class _Files:
                 f.write(self.content)
         if self.mode == "binfile":
             return open(self.path, "rb")
+        if self.mode == "latin1file":
+            return open(self.path, "r", encoding="latin-1")
         return open(self.path, "r", encoding="utf-8")
 
     def close(self):
@@ -312,7 +363,7 @@ class _Files:
 
 
 def _line(mode, l):
-    if mode == "textfile":
+    if mode in TEXT_MODES:
         if type(l) is not str:
             raise TypeError("text-mode line of type %s" % type(l))
         return [ord(c) for c in l]
@@ -338,6 +389,18 @@ def run_impl(case):
         it = iter_splitlines(text)
         lines = [l for l in it]
         return {"lines": [[ord(c) for c in l] for l in lines], "py": [[ord(c) for c in l] for l in text.splitlines()]}
+    if k == "indent":
+        from boltons.strutils import indent
+        text = "".join(chr(c) for c in content)
+        margin = "".join(chr(c) for c in case["margin"])
+        newline = "".join(chr(c) for c in case["newline"])
+        if newline == "\n" and len(content) % 2:
+            res = indent(text, margin)                     # default newline
+        else:
+            res = indent(text, margin, newline)
+        if type(res) is not str:
+            raise TypeError("indent returned %s" % type(res))
+        return {"text": [ord(c) for c in res]}
     files = _Files(content, case["mode"])
     try:
         if k == "rev":
@@ -346,6 +409,10 @@ def run_impl(case):
             for bs, how in case["bs"]:
                 f = files.open()
                 kw = {}
+                if case["mode"] == "enc_utf8":
+                    kw["encoding"] = "utf-8"
+                elif case["mode"] == "enc_latin1":
+                    kw["encoding"] = "latin-1"
                 if case["pos"] is not None:
                     f.seek(case["pos"])
                     kw["preseek"] = False
@@ -403,7 +470,8 @@ def run_impl(case):
 # rendering
 # --------------------------------------------------------------------------
 def _mode(m):
-    return "TextUtf8" if m == "textfile" else "Binary"
+    return {"textfile": "TextUtf8", "enc_utf8": "TextUtf8", "latin1file": "TextLatin1",
+            "enc_latin1": "TextLatin1"}.get(m, "Binary")
 
 
 def _lres(o):
@@ -421,6 +489,9 @@ def to_coq(case, obs):
     k = case["k"]
     if k == "split":
         return "CSplit %s %s %s" % (crtext_runs(case["runs"]), clines(obs["lines"]), clines(obs["py"]))
+    if k == "indent":
+        return "CIndent %s %s %s %s" % (crtext_runs(case["runs"]), crtext(case["margin"]), crtext(case["newline"]),
+                                        crtext(obs["text"]))
     if k == "rev":
         runs = clist("(%s, %s)" % (cN(bs), _lres(o)) for (bs, _how), o in zip(case["bs"], obs))
         pos = "None" if case["pos"] is None else "(Some %s)" % cN(case["pos"])
@@ -438,6 +509,9 @@ def corrupt(case, obs):
             bad["lines"] = [[]]
         else:
             bad["lines"][-1] = bad["lines"][-1] + [97]
+        return bad
+    if k == "indent":
+        bad["text"] = bad["text"] + [32]
         return bad
     if k == "rev":
         o = bad[-1]
@@ -474,7 +548,7 @@ def _edges(case, content):
 def nontrivial(case, obs):
     k = case["k"]
     content = expand(case["runs"])
-    if k == "split":
+    if k in ("split", "indent"):
         brk = [c for c in content if c in (10, 11, 12, 13, 0x85, 0x2028, 0x2029)]
         return len(brk) >= 2 and any(c != 10 for c in brk)
     if k == "rev":
@@ -491,6 +565,8 @@ def distribution(d, case, obs):
     def inc(key, by=1):
         d[key] = d.get(key, 0) + by
     inc("kind:" + k)
+    if k == "indent":
+        return
     if k == "split":
         for c, name in ((10, "LF"), (13, "CR"), (11, "VT"), (12, "FF"), (0x85, "NEL"), (0x2028, "LS"), (0x2029, "PS")):
             if c in content:
